@@ -45,6 +45,19 @@ WRecNoTie(B, fin, i, HV, HF) ==
         xf == Mcs(B, fin[i], HF)
     IN  \A b \in xf : \E a \in xv : a \subseteq b
 
+(* wrong variant: when a layer has several tied falsification sets it is   *)
+(* enough that SOME tie succeeds below (models "only the first tie is      *)
+(* followed correctly"); differs from the definition exactly on inputs     *)
+(* with >= 2 ties of mixed outcome in one layer                            *)
+RECURSIVE WRecAnyTie(_, _, _, _, _)
+WRecAnyTie(B, fin, i, HV, HF) ==
+    LET xv == Mcs(B, fin[i], HV)
+        xf == Mcs(B, fin[i], HF)
+    IN  IF ~(\A b \in xf : \E a \in xv : a \subseteq b) THEN FALSE
+        ELSE IF xv \cap xf = {} THEN TRUE
+        ELSE IF i = 1 THEN FALSE
+        ELSE \E xi \in xv \cap xf : WRecAnyTie(B, fin, i - 1, Fix(B, fin[i], HV, xi), Fix(B, fin[i], HF, xi))
+
 -----------------------------------------------------------------------------
 (* lexicographic inference: the recursion the definition requires -- there *)
 (* is a best verifying continuation that beats every falsifying one        *)
@@ -92,6 +105,7 @@ AlgoDecide(B, q, WS, weakly, rec(_, _, _, _, _)) ==
 AlgoZ(B, q, WS, weakly)           == AlgoDecide(B, q, WS, weakly, ZRec)
 AlgoW(B, q, WS, weakly)           == AlgoDecide(B, q, WS, weakly, WRec)
 AlgoWNoTie(B, q, WS, weakly)      == AlgoDecide(B, q, WS, weakly, WRecNoTie)
+AlgoWAnyTie(B, q, WS, weakly)     == AlgoDecide(B, q, WS, weakly, WRecAnyTie)
 AlgoLex(B, q, WS, weakly)         == AlgoDecide(B, q, WS, weakly, LexRec)
 AlgoLexAllPairs(B, q, WS, weakly) == AlgoDecide(B, q, WS, weakly, LexRecAllPairs)
 AlgoLexLeq(B, q, WS, weakly)      == AlgoDecide(B, q, WS, weakly, LexRecLeq)
